@@ -40,6 +40,9 @@ def main():
             n += 1
             distinct.add(json.dumps(inputs, sort_keys=True))
             v = run_one(mod, inputs)
+            must = (around or {}).get("must_contain") if isinstance(around, dict) else None
+            if v and must and not any(m in v for m in must):
+                v = None     # a different failure: keep looking for one that matches the refuted obligation
             if v:
                 print(json.dumps({"tried": n, "violation": v, "inputs": inputs, "distinct": len(distinct)}))
                 return
